@@ -1297,7 +1297,7 @@ func buildContractFilter(filter contracts.ContractFilter) (string, []any, error)
 	}
 
 	if filter.MinNegotiationHeight > 0 && filter.MaxNegotiationHeight > 0 {
-		if filter.MinNegotiationHeight < filter.MaxNegotiationHeight {
+		if filter.MinNegotiationHeight > filter.MaxNegotiationHeight {
 			return "", nil, errors.New("min negotiation height must be less than max negotiation height")
 		}
 		whereClause = append(whereClause, `c.negotiation_height BETWEEN ? AND ?`)
@@ -1311,7 +1311,7 @@ func buildContractFilter(filter contracts.ContractFilter) (string, []any, error)
 	}
 
 	if filter.MinExpirationHeight > 0 && filter.MaxExpirationHeight > 0 {
-		if filter.MinExpirationHeight < filter.MaxExpirationHeight {
+		if filter.MinExpirationHeight > filter.MaxExpirationHeight {
 			return "", nil, errors.New("min expiration height must be less than max expiration height")
 		}
 		whereClause = append(whereClause, `c.window_start BETWEEN ? AND ?`)
@@ -1382,7 +1382,7 @@ func buildV2ContractFilter(filter contracts.V2ContractFilter) (string, []any, er
 	}
 
 	if filter.MinNegotiationHeight > 0 && filter.MaxNegotiationHeight > 0 {
-		if filter.MinNegotiationHeight < filter.MaxNegotiationHeight {
+		if filter.MinNegotiationHeight > filter.MaxNegotiationHeight {
 			return "", nil, errors.New("min negotiation height must be less than max negotiation height")
 		}
 		whereClause = append(whereClause, `c.negotiation_height BETWEEN ? AND ?`)
@@ -1396,7 +1396,7 @@ func buildV2ContractFilter(filter contracts.V2ContractFilter) (string, []any, er
 	}
 
 	if filter.MinExpirationHeight > 0 && filter.MaxExpirationHeight > 0 {
-		if filter.MinExpirationHeight < filter.MaxExpirationHeight {
+		if filter.MinExpirationHeight > filter.MaxExpirationHeight {
 			return "", nil, errors.New("min expiration height must be less than max expiration height")
 		}
 		whereClause = append(whereClause, `c.expiration_height BETWEEN ? AND ?`)
